@@ -13,6 +13,11 @@
  *   fpraise      <flag>[,<flag>...]       the HOST application's own float arithmetic: feraiseexcept() of
  *                                         inexact | underflow | overflow | invalid | divbyzero  (no libnev call)
  *   fpclear                               feclearexcept(FE_ALL_EXCEPT) by the host
+ *   setenv       <name> <value>           the HOST application changes its environment (NEVER_PATH is read by the
+ *   unsetenv     <name>                   compiler at every `use`); no libnev call
+ *
+ * File names are handed to nev_compile_file exactly as written in the script (relative names are relative to the
+ * working directory the driver was started in).
  *
  * Handles are small integers (0..63), programs and VMs in separate pools.  Misuse that the API
  * itself cannot survive (executing a program whose compilation failed is fine: nev_execute returns 1;
@@ -35,6 +40,7 @@
  *   M <h> <k> <hex of msg_array[k]>                      (only for the handle named by a compile op,
  *                                                         and for any handle whose message count changed)
  *   V <v> init=<..> sp=<..> fp=<..> pp=<..> gp=<..> stack=<hash of slots 0..sp> heap=<live cells>:<hash>
+ *   CWD <hex of getcwd()>     the working directory of the PROCESS after the operation (no API call may move it)
  *   .                          end of the block
  * If libnev terminates the process from inside a call (exit(1) on "stack too large"/"out of memory") an
  * atexit handler prints  "EXIT-IN-CALL <index>" + OUT/ERR + for execute the EXE line known so far.
@@ -275,8 +281,11 @@ static void print_vm_digest(int vd)
 
 static void print_all(int named_prog)
 {
+    char cwd[4200];
     for (int i = 0; i < NH; i++) if (progs[i]) print_prog_digest(i, i == named_prog);
     for (int i = 0; i < NH; i++) if (vms[i]) print_vm_digest(i);
+    if (getcwd(cwd, sizeof cwd) == NULL) strcpy(cwd, "?");
+    fprintf(out, "CWD "); hex(out, (unsigned char *)cwd, strlen(cwd)); fprintf(out, "\n");
     fprintf(out, ".\n");
     fflush(out);
 }
@@ -481,6 +490,21 @@ int main(int argc, char ** argv)
         else if (!strcmp(tok[0], "fpclear") && nt == 1)
         {
             feclearexcept(FE_ALL_EXCEPT);
+            fprintf(out, "RET -\n");
+        }
+        else if (!strcmp(tok[0], "setenv") && nt == 3)
+        {
+            setenv(tok[1], tok[2], 1);
+            fprintf(out, "RET -\n");
+        }
+        else if (!strcmp(tok[0], "setenv") && nt == 2)
+        {
+            setenv(tok[1], "", 1);
+            fprintf(out, "RET -\n");
+        }
+        else if (!strcmp(tok[0], "unsetenv") && nt == 2)
+        {
+            unsetenv(tok[1]);
             fprintf(out, "RET -\n");
         }
         else fprintf(out, "REFUSED unknown operation\n");
